@@ -92,6 +92,10 @@ func applyTIFFPredictor2(data []byte, params Params) ([]byte, error) {
 		return nil, fmt.Errorf("TIFF Predictor 2 only supports 8 bits per component, got %d", bpc)
 	}
 
+	if columns <= 0 || colors <= 0 {
+		return nil, fmt.Errorf("invalid predictor geometry: Columns=%d, Colors=%d", columns, colors)
+	}
+
 	rowSize := columns * colors
 	if len(data)%rowSize != 0 {
 		return nil, fmt.Errorf("data size %d is not a multiple of row size %d", len(data), rowSize)
@@ -125,6 +129,10 @@ func applyPNGPredictor(data []byte, predictor int, params Params) ([]byte, error
 
 	if bpc != 8 {
 		return nil, fmt.Errorf("PNG predictor only supports 8 bits per component, got %d", bpc)
+	}
+
+	if columns <= 0 || colors <= 0 {
+		return nil, fmt.Errorf("invalid predictor geometry: Columns=%d, Colors=%d", columns, colors)
 	}
 
 	// PNG predictors work on rows with a predictor byte at the start of each row
